@@ -117,7 +117,7 @@ def realval(x):
 
 
 class Frame:
-    __slots__ = ("fn", "block", "ip", "locals", "ret_dest", "prev", "normal", "allocas", "depth_mark")
+    __slots__ = ("fn", "block", "ip", "locals", "ret_dest", "prev", "normal", "allocas", "visited", "summ")
 
     def __init__(self, fn, ret_dest=None, normal=None):
         self.fn = fn
@@ -128,6 +128,8 @@ class Frame:
         self.prev = None
         self.normal = normal
         self.allocas = []
+        self.visited = {fn.entry}
+        self.summ = {}
 
     def clone(self):
         f = Frame.__new__(Frame)
@@ -135,6 +137,8 @@ class Frame:
         f.locals = dict(self.locals)
         f.ret_dest, f.prev, f.normal = self.ret_dest, self.prev, self.normal
         f.allocas = list(self.allocas)
+        f.visited = set(self.visited)
+        f.summ = dict(self.summ)
         return f
 
 
@@ -219,6 +223,7 @@ class Engine:
         self.path_results = []
         self.ad_vars = set()
         self.shard = None
+        self.summarize_loops = False
         self.atom_cache = {}
         self.concrete_checks = []
         self.simplified = []
@@ -840,10 +845,20 @@ class Engine:
             return allc
         chosen = [False] * len(allc)
         changed = True
+        # engine-created variables (sqrt!k, atan!k, sin(atan!k), loop_x!k ...) are defined by the constraints that
+        # mention them: such a constraint matters only if one of its fresh variables is already relevant.
+        # Constraints over harness inputs only are kept when they share a variable with the relevant set.
+        fresh = [frozenset(v for v in cv if "!" in v) for cv, _ in infos]
         while changed:
             changed = False
             for i, (cv, _) in enumerate(infos):
-                if not chosen[i] and (cv & vs or not cv):
+                if chosen[i]:
+                    continue
+                if fresh[i]:
+                    hit = bool(fresh[i] & vs)
+                else:
+                    hit = bool(cv & vs) or not cv
+                if hit:
                     chosen[i] = True
                     if not cv <= vs:
                         vs |= cv
@@ -1147,6 +1162,7 @@ class Engine:
         fr.prev = prev
         fr.block = blk
         fr.ip = 0
+        fr.visited.add(label)
 
     def op_br(self, st, fr, ins, work):
         self.goto(st, fr, ins.x[0])
@@ -1159,6 +1175,9 @@ class Engine:
         if c is UNDEF:
             raise Inconclusive("branch on undef")
         ce = c.e
+        if self.summarize_loops and (ins.x[0] in fr.visited or ins.x[1] in fr.visited):
+            if self.summarize_latch(st, fr, ins, ce):
+                return
         t = self.feasible(st, ce)
         f = self.feasible(st, z3.Not(ce))
         if t is False and f is False:
@@ -1179,6 +1198,43 @@ class Engine:
         st.assume(ce)
         st.trace.append(fr.block.name)
         self.goto(st, fr, ins.x[0])
+
+    def summarize_latch(self, st, fr, ins, ce):
+        """loop whose exit test is symbolic (convergence loops): abstract it by its arbitrary last iteration -
+        havoc the header phis, run the body once more, assume the exit condition (partial correctness)"""
+        back_true = ins.x[0] in fr.visited
+        header = ins.x[0] if back_true else ins.x[1]
+        exit_ = ins.x[1] if back_true else ins.x[0]
+        key = (fr.block.name, fr.ip)
+        if fr.summ.get(key):
+            # second arrival: this was the last iteration
+            st.assume(z3.Not(ce) if back_true else ce)
+            fr.summ[key] = False
+            self.stats["loops_summarised"] = self.stats.get("loops_summarised", 0) + 1
+            self.goto(st, fr, exit_)
+            return True
+        blk = fr.fn.blocks[header]
+        if not blk.phis:
+            return False
+        hv = st.user.setdefault("havoc", [])
+        vals = []
+        for ph in blk.phis:
+            t = ph.ty.resolve()
+            if t.k in ("float", "double") and self.fmode != "fp":
+                v = SV(self.fresh("loop_" + ph.dest, z3.RealSort()))
+                hv.append(v)
+            else:
+                raise Inconclusive("loop summary: non-float loop-carried value %%%s" % ph.dest)
+            vals.append((ph.dest, v))
+        fr.summ[key] = True
+        prev = fr.block.name
+        for d, v in vals:
+            fr.locals[d] = v
+        fr.prev = prev
+        fr.block = blk
+        fr.ip = 0
+        st.trace.append("summarised loop at %s" % header)
+        return True
 
     def op_switch(self, st, fr, ins, work):
         c = self.val(st, fr, ins.a[0])
